@@ -330,13 +330,19 @@ def guardCmd (toks : List String) : String :=
       let c := shape.getLastD 1
       let rows := chunks c xs
       let cols := (List.range c).map (fun j => rows.map (fun r => r.getD j 0))
-      verdict (Guards.badKinetic close0F (fun l => l.foldl (· + ·) 0) shape cols)
+      -- `np.allclose(col.sum(), 0, atol=1e-8 * max(1, |khi|.max()))`
+      let scale := max 1.0 (xs.foldl (fun m x => max m x.abs) 0)
+      verdict (Guards.badKinetic (fun (x : Float) => x.abs <= 1e-8 * scale) (fun l => l.foldl (· + ·) 0) shape cols)
   | "conserve" :: n :: vals =>
       let n := n.toNat!
       let xs := vals.map fOfTok
       let rows := chunks n (xs.take (n * n))
       let dens := xs.drop (n * n)
-      verdict (Guards.notConserving close0F (fun a b => (a.zip b).foldl (fun acc (x, y) => acc + x * y) 0) rows dens)
+      -- `np.allclose(khi @ density, 0, atol=1e-8 * max(1, |khi|.max() * |density|.max()))`
+      let amax := fun (l : List Float) => l.foldl (fun m x => max m x.abs) 0
+      let scale := max 1.0 (amax (xs.take (n * n)) * amax dens)
+      verdict (Guards.notConserving (fun (x : Float) => x.abs <= 1e-8 * scale)
+        (fun a b => (a.zip b).foldl (fun acc (x, y) => acc + x * y) 0) rows dens)
   | ["diffusion", dsh, ksh] => verdict (Guards.badDiffusion (shapeOfTok dsh) (shapeOfTok ksh))
   | "decl" :: rest =>
       match splitOnTok ";" rest with
